@@ -256,7 +256,15 @@ class LoopSpec(object):
     local_types: {name: kind} for locals first assigned inside the body
     """
 
-    def __init__(self, invariant, havoc_heap=None, frame_facts=None, elem_cls="Node", on_iter=None, local_types=None, name=""):
+    def __init__(self, invariant, havoc_heap=None, frame_facts=None, elem_cls="Node", on_iter=None, local_types=None, name="", mentions=None, lacks=None):
+        # optional description of the loop this spec belongs to: attribute / variable names its body mentions (and names it does not)
+        self.match = None
+        if mentions or lacks:
+            def match(node, mentions=tuple(mentions or ()), lacks=tuple(lacks or ())):
+                names = {n.attr for n in ast.walk(node) if isinstance(n, ast.Attribute)} | {n.id for n in ast.walk(node) if isinstance(n, ast.Name)}
+                return all(m in names for m in mentions) and not any(m in names for m in lacks)
+
+            self.match = match
         self.invariant = invariant
         self.havoc_heap = havoc_heap or (lambda ctx: [])
         self.frame_facts = frame_facts
@@ -265,8 +273,15 @@ class LoopSpec(object):
         self.local_types = local_types or {}
         self.name = name
 
+    def _clauses(self, ctx, fn, k):
+        try:
+            return self.invariant(ctx)
+        except KeyError as e:
+            # the invariant names an accumulator local of the loop; code that no longer has it is outside this contract: undecided, never a violation
+            raise Undecided("loop %d of %s: the invariant refers to %s, which the current body does not define" % (k, fn, e))
+
     def _check_inv(self, ex, ctx, st, tag, fn, k):
-        clauses = self.invariant(ctx)
+        clauses = self._clauses(ctx, fn, k)
         for f in ctx.facts:
             st.assume(_zb(f))
         for (cid, f) in clauses:
@@ -279,7 +294,7 @@ class LoopSpec(object):
                 st.oblige(oid, f, kind="loopinv")
 
     def _assume_inv(self, ex, ctx, st):
-        clauses = self.invariant(ctx)
+        clauses = self._clauses(ctx, ex.cur_func[-1] if ex.cur_func else "?", -1)
         for f in ctx.facts:
             st.assume(_zb(f))
         for (cid, f) in clauses:
